@@ -186,6 +186,10 @@ def sigma_facts(ob, axioms, depth=2, cheap_only=False):
             if len(binders) == 1:
                 v, n = binders[0]
                 facts.append(z3.Implies(n == 1, app == z3.substitute(body, (v, z3.IntVal(0)))))
+                for c_ in (2, 3):
+                    facts.append(
+                        z3.Implies(n == c_, app == z3.Sum(*[z3.substitute(body, (v, z3.IntVal(q))) for q in range(c_)]))
+                    )
             frontier.append(body)
             if cheap_only:
                 continue
